@@ -1923,7 +1923,33 @@ pub const SW_LOCALIZED_REF: &str = "geom-ref-error-literal-not-localized";
 pub const SW_CLEARS_LINK: &str = "geom-empty-cell-clears-link";
 pub const SW_STALE_SPILL: &str = "geom-stale-spill-on-other-sheet";
 pub const SW_CSE: &str = "geom-cse-array-rewritten-as-plain-formula";
-pub const SWITCHES: [&str; 7] = [SW_RETYPE, SW_NAMES, SW_ROW_OFFGRID, SW_LOCALIZED_REF, SW_CLEARS_LINK, SW_STALE_SPILL, SW_CSE];
+/// listed under C07: of two dynamic arrays whose blocks overlap, which one spills depends on the
+/// order in which they are evaluated
+pub const SW_COMPETING: &str = "c07-competing-dynamic-anchors";
+pub const SWITCHES: [&str; 8] = [SW_RETYPE, SW_NAMES, SW_ROW_OFFGRID, SW_LOCALIZED_REF, SW_CLEARS_LINK, SW_STALE_SPILL, SW_CSE, SW_COMPETING];
+
+/// Some dynamic array of the workbook shows `#SPILL!` while another one exists on the same sheet:
+/// the two may compete for cells.
+pub fn blocked_anchor_next_to_another(model: &Model) -> bool {
+    for (si, ws) in model.workbook.worksheets.iter().enumerate() {
+        let mut anchors = 0;
+        let mut blocked = false;
+        for (r, rd) in &ws.sheet_data {
+            for (c, cell) in rd {
+                if let Cell::ArrayFormula { kind: ArrayKind::Dynamic, .. } = cell {
+                    anchors += 1;
+                    if matches!(cell_value(model, si as u32, *r, *c), TV::Err(k) if k == "#SPILL!") {
+                        blocked = true;
+                    }
+                }
+            }
+        }
+        if blocked && anchors >= 2 {
+            return true;
+        }
+    }
+    false
+}
 
 pub fn active_switches(avoid: &dyn Fn(&str) -> bool) -> Vec<String> {
     SWITCHES.iter().filter(|s| avoid(s)).map(|s| s.to_string()).collect()
